@@ -108,7 +108,7 @@ func intersects(a, b []string) (string, bool) {
 func podActive(p *corev1.Pod) bool { return !podTerminal(p) && p.DeletionTimestamp == nil }
 
 // CheckInterPod evaluates the final plan: all = bound pods and pods placed by the pass.
-func CheckInterPod(all []*Placed, nss nsView) (oracle, msg string) {
+func CheckInterPod(all []*Placed, nss nsView, partial bool) (oracle, msg string) {
 	sort.SliceStable(all, func(i, j int) bool { return all[i].Pod.Name < all[j].Pod.Name })
 	for _, a := range all {
 		if !podActive(a.Pod) {
@@ -129,7 +129,9 @@ func CheckInterPod(all []*Placed, nss nsView) (oracle, msg string) {
 				}
 			}
 		}
-		if !a.New {
+		// a plan of which only a part is visible (some NodeClaim of the pass was never written) can still be judged for
+		// anti-affinity, where a missing placement can only hide a conflict; affinity and spread need all of it
+		if !a.New || partial {
 			continue
 		}
 		// 2. required affinity of pods placed by the pass
@@ -222,6 +224,20 @@ func CheckInterPod(all []*Placed, nss nsView) (oracle, msg string) {
 						there = append(there, fmt.Sprintf("%s(new=%v,phase=%s)", b.Pod.Name, b.New, b.Pod.Status.Phase))
 					}
 				}
+				var el []string
+				for d := range eligible {
+					el = append(el, fmt.Sprintf("%s=%d", d, counts[d]))
+				}
+				sort.Strings(el)
+				var nodesOf []string
+				for _, b := range all {
+					if b.Node != nil {
+						if db := b.Domains(c.TopologyKey); len(db) == 1 && counts[db[0]] == min && spreadNodeEligible(a.Pod, c, b.Node) {
+							nodesOf = append(nodesOf, b.Target)
+						}
+					}
+				}
+				there = append(there, fmt.Sprintf("eligible=%v minTargets=%v sel=%v", el, dedupe(nodesOf), a.Pod.Spec.NodeSelector))
 				pol := fmt.Sprintf("nodeAffinityPolicy=%v nodeTaintsPolicy=%v minDomains=%v", deref(c.NodeAffinityPolicy), deref(c.NodeTaintsPolicy), func() int32 {
 					if c.MinDomains == nil {
 						return 0
@@ -262,7 +278,7 @@ func InterPodAdmits(pod *corev1.Pod, node *ModelNode, nodes []*ModelNode, nss ns
 		all = append(all, &Placed{Pod: &corev1.Pod{Status: corev1.PodStatus{Phase: corev1.PodSucceeded}}, Target: "node/" + n.Name, Node: n, Domains: labelDomains(n.Labels)})
 	}
 	all = append(all, &Placed{Pod: pod, Target: "node/" + node.Name, New: true, Node: node, Domains: labelDomains(node.Labels)})
-	o, _ := CheckInterPod(all, nss)
+	o, _ := CheckInterPod(all, nss, false)
 	return o == ""
 }
 
@@ -280,4 +296,17 @@ func deref(p *corev1.NodeInclusionPolicy) string {
 		return "<default>"
 	}
 	return string(*p)
+}
+
+func dedupe(in []string) []string {
+	seen := map[string]bool{}
+	var out []string
+	for _, x := range in {
+		if !seen[x] {
+			seen[x] = true
+			out = append(out, x)
+		}
+	}
+	sort.Strings(out)
+	return out
 }
